@@ -113,9 +113,29 @@ def r_clamp(db, rep):
                     break
 
 
+def _accessor_obligations(db, rep):
+    """numElements / maxLength (and per-kind overrides) return the stored field itself, not a function of it."""
+    for name, fld in (("numElements", "elements"), ("maxLength", "maxlength")):
+        for f in db.funcs.values():
+            if f.name != name or not f.body or not f.rec or not (f.rec == "StringDictionary" or db.is_subclass(f.rec, "StringDictionary")):
+                continue
+            rep.visit(f)
+            rets = [n for n in f.live_nodes() if n["k"] == "ReturnStmt" and n.get("value") is not None]
+            rep.inst(f.loc, "%s returns %s" % (f.qn, ", ".join(canon(SeqBuilder(db, f, "c", nosubst=True).sym(r["value"])) for r in rets)))
+            for r in rets:
+                rep.ob()
+                p = resolved_path(f, r["value"])
+                if f.rec == "StringDictionary" and p != ("this", fld):
+                    rep.viol("%s#accessor" % f.qn, f.nloc(r),
+                             "%s returns %s rather than the stored %s: every kind's constructor and loader maintain that field as the exact "
+                             "count / the length bound, so any adjustment here makes the reported value wrong for some kind" % (
+                                 f.qn, canon(SeqBuilder(db, f, "c", nosubst=True).sym(r["value"])), fld), f.qn)
+
+
 @rule("R-METADATA", 12, "every building constructor counts each consumed string exactly once into `elements` and keeps "
                         "`maxlength` >= its length (or copies both from the dictionary it wraps)")
 def r_metadata(db, rep):
+    _accessor_obligations(db, rep)
     for k in kinds(db):
         ctors = [c for c in db.methods_of(k) if c.is_ctor and c.params and "Iterator" in c.tstr(c.params[0]["t"])]
         for c in ctors:
